@@ -323,7 +323,8 @@ func c13Scalar(r *rng) *c13Val {
 	case 6:
 		return &c13Val{kind: 'B', i: int64(r.intn(2))}
 	case 7:
-		return &c13Val{kind: 'T', s: c13TimeP(r)}
+		p := c13TimeP(r)
+		return &c13Val{kind: 'T', s: p, z: c13RandRep(p)}
 	}
 	return &c13Val{kind: 'S', s: ""}
 }
@@ -465,12 +466,14 @@ func c13FieldOp(r *rng, kind int, depth int) c13Field {
 	case 5:
 		return c13Field{"bool", &c13Val{kind: 'B', i: int64(r.intn(2))}}
 	case 6:
-		return c13Field{"time", &c13Val{kind: 'T', s: c13TimeP(r)}}
+		p := c13TimeP(r)
+		return c13Field{"time", &c13Val{kind: 'T', s: p, z: c13RandRep(p)}}
 	case 7:
 		if r.chance(1, 3) {
 			return c13Field{"timep", &c13Val{kind: 'N'}}
 		}
-		return c13Field{"timep", &c13Val{kind: 'T', s: c13TimeP(r)}}
+		p := c13TimeP(r)
+		return c13Field{"timep", &c13Val{kind: 'T', s: p, z: c13RandRep(p)}}
 	case 8:
 		return c13Field{"sl", c13StrList(r)}
 	case 9:
@@ -736,6 +739,7 @@ var c13QuickTier bool
 func c13Gen(tier string, seed uint64, out *bufio.Writer) {
 	r := newRng(seed)
 	c13QuickTier = tier != "thorough"
+	c13ZoneRng = newRng(seed ^ 0x7a6f6e6573)
 	c13GenKeys(tier, r, out)
 	c13GenValues(tier, r, out)
 	c13GenCheckers(tier, r, out)
@@ -743,4 +747,5 @@ func c13Gen(tier string, seed uint64, out *bufio.Writer) {
 	c13GenSizes(tier, r, out)
 	c13GenOverwrites(tier, r, out)
 	c13GenOverrides(tier, r, out)
+	c13GenTimes(tier, r, out)
 }
